@@ -166,7 +166,7 @@ class Externals:
                 else:
                     d = SV(MapT(Leaf('V')), {'dom': sv.c['idom'], '.': sv.c['inv']})
                 self.note('bidict: _fwdm/_invm are the forward and inverse dicts (bidict 0.24)')
-                return iter([(ctx, ctx.alloc('map', d))])
+                return iter([(ctx, ctx.alloc('map', d, alias_of=base))])
         if isinstance(base, HRef):
             h = ctx.heap[base.id]
             if h.kind == 'rec':
@@ -1026,8 +1026,14 @@ def m_remove(ext, eng, ctx, base, args, kwargs):
     raise Unsupported('.remove on %r' % (base,))
 
 
+def _no_alias_write(ctx, base, what):
+    if isinstance(base, HRef) and ctx.heap[base.id].alias_of is not None:
+        raise Unsupported('%s through a live view of %r (aliasing write: outside the by-value container model)' % (what, ctx.heap[base.id].alias_of))
+
+
 def m_update(ext, eng, ctx, base, args, kwargs):
     (x,) = args.items()
+    _no_alias_write(ctx, base, 'update')
     if isinstance(base, HRef) and ctx.heap[base.id].kind == 'map' and isinstance(ctx.heap[base.id].data, dict) and not ctx.heap[base.id].data:
         ctx.heap[base.id].data = SV.empty(MapT(Leaf('V')))
     if isinstance(base, HRef) and ctx.heap[base.id].kind == 'map' and isinstance(ctx.heap[base.id].data, SV):
@@ -1067,6 +1073,7 @@ def m_setdefault(ext, eng, ctx, base, args, kwargs):
 
 def m_pop(ext, eng, ctx, base, args, kwargs):
     items = args.items()
+    _no_alias_write(ctx, base, 'pop')
     if isinstance(base, HRef) and ctx.heap[base.id].kind == 'map' and isinstance(ctx.heap[base.id].data, dict):
         k = eng.to_v(ctx, items[0])
         d = ctx.heap[base.id].data
@@ -1127,6 +1134,14 @@ def m_union(ext, eng, ctx, base, args, kwargs):
     raise Unsupported('.union')
 
 
+def m_set_add(ext, eng, ctx, base, args, kwargs):
+    """set.add / set.discard on a module-level or local set that no contract speaks about"""
+    if isinstance(base, HRef) and ctx.heap[base.id].kind == 'map':
+        yield ctx, S(NONE)
+        return
+    raise Unsupported('.add/.discard on %r' % (base,))
+
+
 CONTAINER_METHODS = {'get': m_get, 'copy': m_copy, 'items': m_items, 'keys': m_keys, 'values': m_values,
                      'append': m_append, 'remove': m_remove, 'update': m_update, 'setdefault': m_setdefault,
-                     'pop': m_pop, 'union': m_union}
+                     'pop': m_pop, 'union': m_union, 'add': m_set_add, 'discard': m_set_add}
